@@ -959,6 +959,62 @@ def path_sequence(rng):
             lambda w: ("same", len(w.arrs) - 1)]
 
 
+def ambient_slice(payload):
+    """arrays built from naive datetimes and what the property's operations derive from them (slices, masks, index lists,
+    insert, a time field padded with datetime.min epochs by Dataset.extend, scale and format read-outs), as canonical items
+    [[what], [jd1, jd2, datetimes]] - evaluated by harness/ambient.py in child interpreters with other TZ / locale / hash seed"""
+    import sys
+    from datetime import datetime, timedelta
+    from midgard.data.time import Time
+    from midgard.data import dataset
+
+    def canon(x):
+        j1 = [float(v).hex() for v in np.atleast_1d(np.asarray(x.jd1, dtype=float))]
+        j2 = [float(v).hex() for v in np.atleast_1d(np.asarray(x.jd2, dtype=float))]
+        return [j1, j2, [d.isoformat() for d in np.atleast_1d(x.datetime)], x.fmt, x.scale, len(x)]
+
+    out = []
+    for scale in payload["scales"]:
+        for base_iso, us in payload["arrays"]:
+            base = datetime.fromisoformat(base_iso)
+            t = Time([base + timedelta(microseconds=u) for u in us], fmt="datetime", scale=scale)
+            n = len(us)
+            mask = np.array([k % 2 == 0 for k in range(n)])
+            derived = [("t", t), ("t[::-1]", t[::-1]), ("t[mask]", t[mask]), ("t[[n-1, 0]]", t[[n - 1, 0]]), ("t[0]", t[0]),
+                       ("t.tai", t.tai), ("t.tai[1:]", t.tai[1:]), ("copy", t.copy()), ("subset", t.subset([0, n - 1], {})),
+                       ("insert", type(t).insert(t, 1, t[::-1], {}))]
+            d1 = dataset.Dataset(n)
+            d1.add_time("ta", val=[base + timedelta(microseconds=u) for u in us], scale=scale, fmt="datetime")
+            d1.add_float("x", val=np.arange(n, dtype=float))
+            d2 = dataset.Dataset(2)
+            d2.add_float("x", val=np.arange(2, dtype=float))
+            d1.extend(d2)
+            derived.append(("padded field", d1.ta))
+            for name, x in derived:
+                ident = [scale, base_iso, list(us), name]
+                try:
+                    out.append([ident, canon(x)])
+                    out.append([ident + ["a == a and equal hashes"], [bool(x == x[...]), hash(x) == hash(x[...]) if np.ndim(x.jd1) else True]])
+                except Exception as e:  # noqa
+                    out.append([ident, f"raise {type(e).__name__}"])
+    return out
+
+
+def fmt_pair_sequence(rng):
+    """single epochs read from an array and from an equal array in another format (a gps_ws array and its way to TAI and
+    back, which comes in format jd): each read must give an epoch in the format of the array it was read from"""
+    st = {}
+
+    def first(w):
+        st["i"] = rng.randrange(len(w.arrs[0].jd1))
+        return ("getint", 0, st["i"])
+
+    return [first, lambda w: ("iter", 0), lambda w: ("scale", 0, "tai"),
+            lambda w: ("scale", len(w.arrs) - 1, w.base_scale if w.kind != "leap" else "tai"),
+            lambda w: ("getint", len(w.arrs) - 1, st["i"]), lambda w: ("iter", len(w.arrs) - 2), lambda w: ("getell", 0, st["i"]),
+            lambda w: ("getint", 0, st["i"] - len(w.arrs[0].jd1))]
+
+
 def run(ctx: Ctx):
     global HOOKS
     from translator import extract_timearray
@@ -1021,10 +1077,17 @@ def _run_all(ctx: Ctx, Time, rng):
         check_format_commutes(ctx, Time, rng)
     for _ in range(ctx.budget(40, 600)):
         check_field_padding(ctx, Time, rng)
+    # none of it depends on the time zone, the locale or the hash seed of the process (child interpreters, harness/ambient.py)
+    from . import ambient
+    payload = {"scales": ["utc", "gps"],
+               "arrays": [["2017-09-04T06:00:00", [0, 1, 39, 250]], ["2016-12-31T23:59:58", [0, 1500000, 3000000]],
+                          ["2015-03-29T01:30:00", [0, 3600000000, 7200000000]], ["2021-10-31T00:30:00", [0, 5400000000, 9000000000]]]}
+    ctx.extra["ambient_items_compared"] = ambient.compare(ctx, "harness.c04:ambient_slice", payload)
     # derivation paths to the same epochs
     for _ in range(ctx.budget(120, 2000)):
         kind = rng.choice(["mjd", "gps_ws", "leap"])
-        run_sequence(ctx, Time, kind, (rng.randint(2, 6), rng.randint(1, 3)), path_sequence(rng), rng, False)
+        run_sequence(ctx, Time, kind, (rng.randint(2, 6), rng.randint(1, 3)), path_sequence(rng) if rng.random() < 0.7 else fmt_pair_sequence(rng),
+                     rng, False)
     ctx.traces = ctx.evaluations
 
 
